@@ -181,10 +181,14 @@ def concrete_leaf(a, v):
     if k == "any":
         return {"half": 3.5, "big": float(2 ** 53), "plain": "abc", "bool": True}[s]
     if k == "bytes":
+        if s == "huge":
+            return {"$bytes": base64.b64encode(bytes(i % 251 for i in range(70000))).decode()}
         return {"$bytes": base64.b64encode(bytes(range(1, n + 1))).decode()}
     # string
     if s == "empty":
         return ""
+    if s == "huge":
+        return "abcdefghij" * 7000
     if a["rule"] == "format" and s == "plain" and n == 3:
         return DATE
     base = list(LETTERS[:n])
